@@ -336,17 +336,53 @@ func c14ReproducibleWired(w *World, r *Report, fatPkgs []string) {
 		}
 		r.Check(controls && leak == "", "C14-d", fnName(cr), "reproducible parameter gates the volume serial", w.relFile(cr.Pos()),
 			"parameter controls a branch; no nondeterminism source feasible with reproducible=true", "reproducible does not gate the nondeterministic volume id ("+leak+")")
-		// Disk.CreateFilesystem passes spec.Reproducible
+		// Disk.CreateFilesystem (or a helper it delegates to) passes spec.Reproducible
+		reach := w.reachableFrom([]*ssa.Function{cf}, func(f *ssa.Function) bool { return w.pkgOf(f) == "disk" })
 		n := 0
-		for _, c := range calls(cf, false, func(c ssa.CallInstruction) bool { return c.Common().StaticCallee() == cr }) {
-			n++
-			p := w.prov(c.Common().Args[idx], provOpts{})
-			r.Check(p.hasField("FilesystemSpec", "Reproducible") && len(p.Roots) >= 1 && onlyFieldOrParam(p), "C14-d", fnName(cf), "passes spec.Reproducible to "+fnName(cr), w.relFile(c.Pos()),
-				"", "the reproducible argument is not spec.Reproducible: "+strings.Join(p.rootStrings(), ","))
+		for _, host := range sortedFns(reach) {
+			for _, c := range calls(host, false, func(c ssa.CallInstruction) bool { return c.Common().StaticCallee() == cr }) {
+				n++
+				p := w.prov(c.Common().Args[idx], provOpts{})
+				r.Check(p.hasField("FilesystemSpec", "Reproducible") && len(p.Roots) >= 1 && onlyFieldOrParam(p), "C14-d", fnName(cf), "passes spec.Reproducible to "+fnName(cr), w.relFile(c.Pos()),
+					"", "the reproducible argument is not spec.Reproducible: "+strings.Join(p.rootStrings(), ","))
+			}
 		}
 		if n == 0 {
-			r.Fail("C14-d", fnName(cf), "passes spec.Reproducible to "+fnName(cr), w.relFile(cf.Pos()), "Disk.CreateFilesystem does not call this constructor")
+			r.Fail("C14-d", fnName(cf), "passes spec.Reproducible to "+fnName(cr), w.relFile(cf.Pos()), "Disk.CreateFilesystem does not reach this constructor")
 		}
+	}
+	// a FilesystemSpec rebuilt on the way must carry the Reproducible field over
+	reach := w.reachableFrom([]*ssa.Function{cf}, func(f *ssa.Function) bool { return w.pkgOf(f) == "disk" })
+	for _, host := range sortedFns(reach) {
+		allInstrs(host, func(ins ssa.Instruction) {
+			al, ok := ins.(*ssa.Alloc)
+			if !ok || !typeIs(al.Type(), "disk", "FilesystemSpec") {
+				return
+			}
+			// the copy of the parameter itself (spill of `spec`) is a whole-struct store
+			whole, field, anyField := false, false, false
+			for _, ref := range *al.Referrers() {
+				switch x := ref.(type) {
+				case *ssa.Store:
+					if x.Addr == ssa.Value(al) {
+						whole = true
+					}
+				case *ssa.FieldAddr:
+					for _, r2 := range *x.Referrers() {
+						if st, isSt := r2.(*ssa.Store); isSt && st.Addr == ssa.Value(x) {
+							anyField = true
+							if _, f, _, ok := fieldOfAddr(x); ok && f.Name() == "Reproducible" {
+								field = true
+							}
+						}
+					}
+				}
+			}
+			if whole || !anyField {
+				return
+			}
+			r.Check(field, "C14-d", fnName(host), "rebuilt FilesystemSpec keeps Reproducible", w.relFile(instrPos(al)), "", "a FilesystemSpec is rebuilt field by field without Reproducible: the flag is lost on this path")
+		})
 	}
 }
 
